@@ -18,7 +18,9 @@ RULE = ("Hypothesis draws a scenario (store algorithm, content / document sizes 
         "permanent object address hashes to its name; every metadata document at a permanent address is "
         "byte-identical to a version supplied by some store_metadata call; every pid reference holds exactly "
         "one digest-length hex cid of the scenario; and retrieve_object / retrieve_metadata issued through a "
-        "second store instance return complete bytes or a not-found class error. evaluations = observations. "
+        "second store instance return complete bytes or a not-found class error. One third of the scenarios run with "
+        "short writes (every unbuffered or fd-level write takes only part of its buffer, as at a quota limit). "
+        "evaluations = observations. "
         "Non-trivial = observation strictly inside a call that creates, replaces or removes a permanent file, "
         "content >= 1 buffer; distinct key = (call kind, boundary kind, index, size class).")
 EXHAUSTIVE_NOTE = "within each scenario every boundary of the call is an observation point"
@@ -35,7 +37,9 @@ def examples(tier):
 
 
 def strategy(tier):
-    return scen.scenarios(kinds=KINDS)
+    from hypothesis import strategies as st
+    return st.tuples(scen.scenarios(kinds=KINDS), st.sampled_from([False, False, True])).map(
+        lambda t: dict(t[0], short_writes=t[1]))
 
 
 def run_case(case, ctx):
@@ -105,7 +109,10 @@ def run_case(case, ctx):
         except Violation as v:
             pending.append(v)
 
-    with fsi.active(d, guarded):
+    with fsi.active(d, guarded) as fctx:
+        if case.get("short_writes"):
+            # environment variant: every unbuffered / fd-level write takes only part of what it is given
+            fctx.write_hook = lambda n: max(1, n - max(1, n // 3))
         out = sc.call_target(store)
     if pending:
         raise pending[0]
